@@ -6,6 +6,7 @@ package mpx
 
 import (
 	"github.com/basecomplextech/baselibrary/async"
+	"github.com/basecomplextech/baselibrary/bin"
 	"github.com/basecomplextech/baselibrary/status"
 	"github.com/basecomplextech/spec/proto/pmpx"
 )
@@ -13,10 +14,14 @@ import (
 func (c *conn) sendLoop(ctx async.Context) status.Status {
 	for {
 		// Arm the wait channel before polling, see channel.Receive.
+		vtr("wq.arm", bin.Bin128{}, 0, 0)
 		wait := c.writeq.ReadWait()
+		vtr("wq.arm.done", bin.Bin128{}, 0, 0)
 
 		// Write pending messages
+		vtr("wq.poll", bin.Bin128{}, 0, 0)
 		b, ok, st := c.writeq.Read()
+		vtrok("wq.poll.done", bin.Bin128{}, ok)
 		switch {
 		case !st.OK():
 			return st
